@@ -270,7 +270,64 @@ func genC11(r *rng, n int) {
 	genC11Proto(r.fork(), n/2)
 }
 
-func genC11Thrift(r *rng, n int) {
+// structs reached only through TWO OR MORE container levels (list<list<S>>, map<string,list<S>>, set<list<S>>,
+// map<string,map<string,S>>, list<map<i32,S>>, list<list<list<S>>>): the target differs from the source in S itself
+// (fields dropped / added, required and default-requiredness fields among the added ones), so the walker has to descend
+// through every container level; a raw copy of such a container is visible as a missing error / missing fill / a
+// surviving field
+func (g *tgen) deepShapes() (from, to *Ty) {
+	r := g.r
+	inner := g.genStruct(g.maxDepth)
+	if len(inner.Fields) == 0 {
+		inner.Fields = append(inner.Fields, &Fld{ID: 1, Name: "only", T: &Ty{K: thrift.I32}, Req: 0})
+	}
+	innerT := inner
+	for try := 0; try < 20 && innerT == inner; try++ {
+		innerT = g.variant(inner, 0)
+	}
+	if innerT != inner && r.chance(60) { // make sure the struct below the containers owes something
+		used := map[int16]bool{}
+		for _, f := range innerT.Fields {
+			used[f.ID] = true
+		}
+		for _, f := range inner.Fields {
+			used[f.ID] = true
+		}
+		id := int16(20000 + r.intn(100))
+		if !used[id] {
+			innerT.Fields = append(innerT.Fields, &Fld{ID: id, Name: fmt.Sprintf("owed%d", id), T: &Ty{K: scalarKinds[r.intn(len(scalarKinds))]}, Req: r.intn(2)})
+		}
+	}
+	str := func() *Ty { return &Ty{K: thrift.STRING} }
+	shapes := []func(s *Ty) *Ty{
+		func(s *Ty) *Ty { return &Ty{K: thrift.LIST, Elem: &Ty{K: thrift.LIST, Elem: s}} },
+		func(s *Ty) *Ty { return &Ty{K: thrift.MAP, Key: str(), Elem: &Ty{K: thrift.LIST, Elem: s}} },
+		func(s *Ty) *Ty { return &Ty{K: thrift.SET, Elem: &Ty{K: thrift.LIST, Elem: s}} },
+		func(s *Ty) *Ty { return &Ty{K: thrift.MAP, Key: str(), Elem: &Ty{K: thrift.MAP, Key: str(), Elem: s}} },
+		func(s *Ty) *Ty { return &Ty{K: thrift.LIST, Elem: &Ty{K: thrift.MAP, Key: &Ty{K: thrift.I32}, Elem: s}} },
+		func(s *Ty) *Ty { return &Ty{K: thrift.LIST, Elem: &Ty{K: thrift.LIST, Elem: &Ty{K: thrift.LIST, Elem: s}}} },
+		func(s *Ty) *Ty { return &Ty{K: thrift.LIST, Elem: s} }, // one level, for contrast
+	}
+	mk := func(s *Ty, pick []int) *Ty {
+		g.nname++
+		o := &Ty{K: thrift.STRUCT, Name: fmt.Sprintf("S%d", g.nname)}
+		g.structs = append(g.structs, o)
+		for i, k := range pick {
+			o.Fields = append(o.Fields, &Fld{ID: int16(i + 1), Name: fmt.Sprintf("c%d_%d", g.nname, i+1), T: shapes[k](s), Req: 0})
+		}
+		o.Fields = append(o.Fields, &Fld{ID: 100, Name: fmt.Sprintf("x%d", g.nname), T: &Ty{K: thrift.I32}, Req: 0})
+		return o
+	}
+	var pick []int
+	for k := 2 + r.intn(3); k > 0; k-- {
+		pick = append(pick, r.intn(len(shapes)))
+	}
+	return mk(inner, pick), mk(innerT, pick)
+}
+
+func genC11Thrift(r *rng, n int) { genC11ThriftMode(r, n, false) }
+
+func genC11ThriftMode(r *rng, n int, forceDeep bool) {
 	nv := n / 6
 	if nv < 4 {
 		nv = 4
@@ -281,8 +338,12 @@ func genC11Thrift(r *rng, n int) {
 		g.allowReq = true
 		g.structKeys = true
 		var vShape, fShape, tShape *Ty
-		recursive := r.chance(12)
-		if recursive {
+		recursive := r.chance(12) && !forceDeep
+		deep := forceDeep || r.chance(12)
+		if deep && !recursive {
+			fShape, tShape = g.deepShapes()
+			vShape = fShape
+		} else if recursive {
 			fShape, tShape = g.recursiveShapes()
 			vShape = fShape
 			if r.chance(30) {
@@ -296,7 +357,7 @@ func genC11Thrift(r *rng, n int) {
 			}
 			tShape = g.variant(fShape, 0)
 		}
-		if r.chance(12) {
+		if r.chance(12) && !forceDeep {
 			tShape = fShape // the identical descriptor
 		}
 		idl := g.idlMulti(fShape, tShape)
